@@ -139,7 +139,9 @@ func runB(c CaseB) (res ev.Result) {
 	outLog := filepath.Join(dir, fmt.Sprintf("out-%d.log", c.OutPort%2))
 	readLog := func() []string {
 		b, _ := os.ReadFile(outLog)
-		s := strings.Split(string(b), "\n")
+		// the decoder accepts hex digits of both cases: compare lines in the driver's usual
+		// upper-case form whatever case the encoder chose
+		s := strings.Split(strings.ToUpper(string(b)), "\n")
 		return s[:len(s)-1]
 	}
 	var (
@@ -989,7 +991,7 @@ func runSenders(c SendersCase) (res ev.Result) {
 	deadline := time.Now().Add(arriveTimeout)
 	for {
 		got, _ = os.ReadFile(logPath)
-		if bytes.HasSuffix(got, tail) {
+		if bytes.HasSuffix(bytes.ToUpper(got), tail) {
 			break
 		}
 		if time.Now().After(deadline) {
